@@ -299,6 +299,14 @@ class ModelInterp(MiniEval):
                 if isinstance(recv, Recorder):
                     return self.record(recv, f.attr, args, kwargs)
                 return self.apply(target, args, kwargs)
+        if isinstance(f, (ast.Call, ast.Subscript, ast.IfExp)):
+            fv0 = self.expr(f, env)
+            if isinstance(fv0, (Hook, Bound, FuncRef, ClassRef)):
+                args, kwargs = self._args(e, env)
+                return self.apply(fv0, args, kwargs)
+            if isinstance(fv0, tuple) and fv0[:1] == ('<func>',):
+                args, kwargs = self._args(e, env)
+                return self.as_callable(fv0)(*args, **kwargs)
         if isinstance(f, ast.Attribute) and isinstance(f.value, ast.Name):
             recv0 = env.get(f.value.id)
             if isinstance(recv0, ExitStackM) and f.attr == 'callback':
@@ -556,6 +564,9 @@ class ModelInterp(MiniEval):
                     self.assign(it.optional_vars, cm, env)
             try:
                 self.block(s.body, env)
+            except Raised as r:
+                if not any(isinstance(cm, SuppressM) and cm.matches(self, r) for cm in entered):
+                    raise
             finally:
                 for cm in reversed(entered):
                     if isinstance(cm, ExitStackM):
@@ -596,14 +607,28 @@ class ModelInterp(MiniEval):
         for q in self.a.p.classes:
             if q.split('.')[-1] == short and q.startswith('tatsu.exceptions'):
                 rq = q
+        import builtins as _b
         for h in handler_names:
             if h == short or h in ('Exception', 'BaseException'):
                 return True
+            bs, bh = getattr(_b, short, None), getattr(_b, h, None)
+            if isinstance(bs, type) and isinstance(bh, type) and issubclass(bs, BaseException) and issubclass(bs, bh):
+                return True  # the builtin exception hierarchy (KeyError is a LookupError)
             if rq:
                 for c in self.a.ct.mro(rq):
                     if c.split('.')[-1] == h:
                         return True
         return False
+
+
+class SuppressM:
+    """contextlib.suppress(*classes) for interpreted code"""
+
+    def __init__(self, classes):
+        self.names = [c.q.split('.')[-1] if isinstance(c, ClassRef) else getattr(c, '__name__', str(c)) for c in classes]
+
+    def matches(self, interp, raised) -> bool:
+        return interp._exc_matches(raised.cls_name, self.names)
 
 
 class _WithReturn(Exception):
@@ -630,4 +655,4 @@ class ExitStackM:
                 interp.as_callable(fn)(*args, **kwargs)
 
 
-_EXTERNAL: dict[str, Any] = {'contextlib.ExitStack': Hook(lambda: ExitStackM())}
+_EXTERNAL: dict[str, Any] = {'contextlib.ExitStack': Hook(lambda: ExitStackM()), 'contextlib.suppress': Hook(lambda *classes: SuppressM(classes))}
